@@ -203,10 +203,12 @@ DIRECTED = [
 FMT = {1: ['|i1', '|u1', '|b1', '|S1', '|V1'],
        2: ['<i2', '>i2', '<u2', '>u2', '<f2', '>f2', '|S2', '|V2'],
        4: ['<i4', '>i4', '<u4', '>u4', '<f4', '>f4', '|S4', '|V4', '<U1', '>U1'],
-       8: ['<i8', '>i8', '<u8', '>u8', '<f8', '>f8', '<c8', '>c8', '|S8', '|V8', '<U2', '>U2',
-           '<M8[s]', '<M8[ms]', '>M8[s]', '<M8[D]', '<m8[s]', '<m8[ms]', '>m8[s]'],
+       8: ['<i8', '>i8', '<u8', '>u8', '<f8', '>f8', '<c8', '>c8', '|S8', '|V8', '<U2', '>U2'],
+       # (datetime64 / timedelta64 arrays cannot be hashed by jug at all: ndarray.data raises "cannot include dtype 'M' in a
+       #  buffer", also for the copy in the fallback - no identifier, hence no collision)
        16: ['<c16', '>c16', '|S16', '|V16', '<U4', '>U4']}
 BUFLEN = 16
+BUCKET_PAIRS = 60      # pairs classified per identifier bucket
 
 
 def field_formats(size):
@@ -431,7 +433,15 @@ def run(ck):
     for d, members in buckets.items():
         if len(members) > 1:
             ck.count('collision_groups')
-            for a, b in itertools.combinations(members, 2):
+            cand = list(itertools.combinations(members, 2))
+            if len(cand) > BUCKET_PAIRS:
+                # a huge bucket (only seen when something is broken): first-vs-all, neighbours and a sample of the rest
+                keep = set((members[0], m) for m in members[1:]) | set(zip(members[1:], members[2:]))
+                rest = [c for c in cand if c not in keep]
+                keep |= set(ck.rng.sample(rest, max(0, min(len(rest), BUCKET_PAIRS - len(keep)))))
+                ck.count('pairs_not_classified(bucket cap)', len(cand) - len(keep))
+                cand = [c for c in cand if c in keep]
+            for a, b in cand:
                 if cn(a) == cn(b):
                     # the same invocation written in two ways (NoHash / CustomHash payloads, iteratetask vs indexing)
                     ck.count('same_invocation_pairs(exempt)')
@@ -490,22 +500,36 @@ def run(ck):
                       'spec': allspecs[uni_idx[j]], 'coq_case': ucases[j][:3000]})
 
 
-def e2e(ck):
+def e2e_probes():
+    import numpy as np
     import jug
-    from jug import Task, value
+    import jug.task
+    from jug import Task
 
     def f(*a, **k):
         return ('f', a, tuple(sorted(k.items())))
     f.__module__, f.__name__ = 'jf', 'f'
 
-    probes = [
+    return [
         ('delimiter erasure', lambda: Task(f, [1], 2), lambda: Task(f, [1, 2]), 'hash_delimiter_erasure'),
         ('list vs tuple', lambda: Task(f, [1]), lambda: Task(f, (1,)), None),
         ('positional vs keyword', lambda: Task(f, 1), lambda: Task(f, a=1), None),
         ('lambda constant', lambda: Task(f, Task(f, 0)[0]), lambda: Task(f, Task(f, 0)[1]), None),
         ('lambda tasklet', lambda: Task(f, jug.Tasklet(Task(f, 0), (lambda x: x['a']))), lambda: Task(f, jug.Tasklet(Task(f, 0), (lambda x: x['b']))), None),
+        ('record fields', lambda: Task(f, np.zeros(2, dtype=[('x', '<i4'), ('y', '<f4')])),
+         lambda: Task(f, np.zeros(2, dtype=[('y', '<i4'), ('x', '<f4')])), None),
+        ('record field types', lambda: Task(f, np.zeros(2, dtype=[('x', '<i4'), ('y', '<f4')])),
+         lambda: Task(f, np.zeros(2, dtype=[('x', '<f4'), ('y', '<i4')])), None),
+        ('byte order', lambda: Task(f, np.zeros(2, dtype='<i4')), lambda: Task(f, np.zeros(2, dtype='>i4')), None),
+        ('tasklet chain, inner operation', lambda: Task(f, Task(f, 0)[0][1]), lambda: Task(f, Task(f, 0)[1][1]), None),
+        ('tasklet chain, length', lambda: Task(f, Task(f, 0)[1][1]), lambda: Task(f, Task(f, 0)[1]), None),
+        ('return_tuple halves', lambda: Task(f, jug.task.return_tuple(2)(lambda: Task(f, 0))()[0][0]),
+         lambda: Task(f, jug.task.return_tuple(2)(lambda: Task(f, 0))()[1][0]), None),
     ]
-    for name, mk1, mk2, cls in probes:
+
+
+def e2e(ck):
+    for name, mk1, mk2, cls in e2e_probes():
         jugrun.fresh()
         t1 = mk1()
         for d in t1.dependencies():
@@ -525,5 +549,12 @@ def replay(obj):
         res = hashgen.run_workers([obj['a'], obj['b']], [1], 'replay')[0]
         print('digests:', res[0].get('digest'), res[1].get('digest'))
         return 1 if res[0].get('digest') == res[1].get('digest') else 0
+    if 'pair' in obj:
+        for name, mk1, mk2, cls in e2e_probes():
+            if name == obj['pair']:
+                jugrun.fresh()
+                h1, h2 = mk1().hash(), mk2().hash()
+                print('identifiers of the two invocations (%s):' % name, h1, h2)
+                return 1 if h1 == h2 else 0
     print('replay: unrecognised', obj)
     return 2
